@@ -23,4 +23,42 @@ theorem delChans_eq_filter {ks : List Nat} {ch ch' : List (Nat × Cb)} (h : delC
       rw [Bool.and_comm]
     · cases h
 
+section
+variable {κ ν : Type} [DecidableEq κ]
+
+theorem keys_set_nodup (k : κ) (v : ν) (l : List (κ × ν)) (h : (l.map (·.1)).Nodup) :
+    ((set k v l).map (·.1)).Nodup := by
+  induction l with
+  | nil => simp [set]
+  | cons q l ih =>
+    obtain ⟨k', v'⟩ := q
+    simp only [List.map_cons, List.nodup_cons] at h
+    by_cases e : k' = k
+    · subst e
+      simp only [set, ↓reduceIte, List.map_cons, List.nodup_cons]
+      exact h
+    · simp only [set, e, ↓reduceIte, List.map_cons, List.nodup_cons]
+      refine ⟨?_, ih h.2⟩
+      intro hm
+      obtain ⟨p, hp, hk⟩ := List.mem_map.1 hm
+      rcases mem_set hp with rfl | hp'
+      · exact e hk.symm
+      · exact h.1 (List.mem_map.2 ⟨p, hp', hk⟩)
+
+omit [DecidableEq κ] in
+theorem unique_of_keys_nodup (l : List (κ × ν)) (h : (l.map (·.1)).Nodup) :
+    ∀ p ∈ l, ∀ q ∈ l, p.1 = q.1 → p = q := by
+  induction l with
+  | nil => intro p hp; cases hp
+  | cons x l ih =>
+    simp only [List.map_cons, List.nodup_cons] at h
+    intro p hp q hq e
+    rcases List.mem_cons.1 hp with rfl | hp' <;> rcases List.mem_cons.1 hq with rfl | hq'
+    · rfl
+    · exact absurd (List.mem_map.2 ⟨q, hq', e.symm⟩) h.1
+    · exact absurd (List.mem_map.2 ⟨p, hp', e⟩) h.1
+    · exact ih h.2 p hp' q hq' e
+
+end
+
 end Sshuttle.Dgram
